@@ -19,6 +19,10 @@ type connStatus struct {
 	*sync.RWMutex
 	cond    *sync.Cond
 	current connStatusValue
+	// reconnects counts the transitions into connStatusReconnecting. Streams remember the value they are
+	// bound to, so that an outage is noticed even when the status is already back to Connected by the time
+	// a stream's watcher gets to look at it.
+	reconnects uint64
 }
 
 func newConnState() *connStatus {
@@ -65,8 +69,23 @@ func (e *connStatus) CompareAndSwapNot(old, new connStatusValue) (swapped bool) 
 	return true
 }
 
+// Reconnects returns the number of transitions into the reconnecting status so far.
+func (e *connStatus) Reconnects() uint64 {
+	e.RLock()
+	defer e.RUnlock()
+	return e.reconnects
+}
+
+// ReconnectsWithoutLock is Reconnects for callers that hold the lock.
+func (e *connStatus) ReconnectsWithoutLock() uint64 {
+	return e.reconnects
+}
+
 func (e *connStatus) SwapWithoutLock(state connStatusValue) (old connStatusValue) {
 	old = e.current
+	if state == connStatusReconnecting && old != connStatusReconnecting {
+		e.reconnects++
+	}
 	e.current = state
 	e.cond.Broadcast()
 	return
